@@ -67,9 +67,9 @@ void NTT_Goldilocks::NTT_iters(Goldilocks::Element *dst, Goldilocks::Element *sr
         u_int64_t sInc = s + maxBatchPow <= domainPow ? maxBatchPow : domainPow - s + 1;
         u_int64_t rs = s - 1;
         u_int64_t re = domainPow - 1;
-        u_int64_t rb = 1 << rs;
-        u_int64_t rm = (1 << (re - rs)) - 1;
-        u_int64_t batchSize = 1 << sInc;
+        u_int64_t rb = (u_int64_t)1 << rs;
+        u_int64_t rm = ((u_int64_t)1 << (re - rs)) - 1;
+        u_int64_t batchSize = (u_int64_t)1 << sInc;
         u_int64_t nBatches = size / batchSize;
 
         int chunk1 = nBatches / nThreads;
@@ -83,9 +83,9 @@ void NTT_Goldilocks::NTT_iters(Goldilocks::Element *dst, Goldilocks::Element *sr
         {
             for (u_int64_t si = 0; si < sInc; si++)
             {
-                u_int64_t m = 1 << (s + si);
+                u_int64_t m = (u_int64_t)1 << (s + si);
                 u_int64_t mdiv2 = m >> 1;
-                u_int64_t mdiv2i = 1 << si;
+                u_int64_t mdiv2i = (u_int64_t)1 << si;
                 u_int64_t mi = mdiv2i * 2;
                 for (u_int64_t i = 0; i < (batchSize >> 1); i++)
                 {
